@@ -305,6 +305,85 @@ fn c08(tier: Tier) -> Vec<SeqCfg> {
     vec![c]
 }
 
+fn c14(tier: Tier) -> Vec<SeqCfg> {
+    use CasArg::Zero;
+    let v10 = vec![b'x'; 10];
+    let v40 = vec![b'y'; 40];
+    let a = vec![
+        set(K1, b"", 0, 0),
+        set(K1, &v10, 1, 0),
+        set(K1, &v40, 2, 0),
+        set(K2, &v10, 3, 0),
+        set(K2, &v40, 4, 0),
+        set(K3, &v10, 5, 1),
+        set(K3, b"7", 6, 0),
+        append(K1, &v10, Zero),
+        incr(K3, 1, 5, 0, Zero),
+        delete(K1, Zero),
+        flush(None),
+        flush(Some(1)),
+        tick(1),
+        get(K1),
+        get(K2),
+    ];
+    let mut v = vec![];
+    let limits: &[u64] = if tier == Tier::Quick { &[10, 60, 100] } else { &[10, 34, 60, 100, 200] };
+    for l in limits {
+        let mut c = base(&format!("C14/L={}", l), "C14", a.clone(), if tier == Tier::Quick { 4 } else { 5 }, tier);
+        c.sut.policy = Policy::Random(*l);
+        c.evict = Evict::Tight;
+        v.push(c);
+    }
+    v
+}
+
+fn c15(tier: Tier) -> Vec<SeqCfg> {
+    use CasArg::*;
+    let a = vec![
+        set(K1, b"aaaaaaaaaa", 1, 0),
+        set(K1, b"bb", 2, 0),
+        set(K2, b"7", 3, 0),
+        set(K3, b"tmp", 4, 1),
+        store(StoreKind::Set, K1, b"cc", 5, 0, Current),
+        store(StoreKind::Set, K1, b"dd", 5, 0, CurrentPlus1),
+        add(K1, b"ee", 6, 0),
+        add(K3, b"ff", 6, 0),
+        replace(K1, b"gg", 7, 0),
+        replace(K3, b"hh", 7, 0),
+        append(K1, b"+", Zero),
+        prepend(K1, b"-", Zero),
+        append(K3, b"+", Zero),
+        incr(K2, 1, 5, 0, Zero),
+        decr(K2, 1, 5, 0, Zero),
+        incr(K3, 1, 5, 0, Zero),
+        incr(K3, 1, 5, 0xffff_ffff, Zero),
+        delete(K1, Zero),
+        delete(K1, CurrentPlus1),
+        delete(K3, Zero),
+        get(K1),
+        get(K2),
+        get(K3),
+        flush(None),
+        flush(Some(1)),
+        tick(1),
+    ];
+    let mut v = vec![];
+    // accounting observed after every command (hook)
+    let mut c = base("C15/accounting-L=4000", "C15", a.clone(), if tier == Tier::Quick { 3 } else { 5 }, tier);
+    c.sut.policy = Policy::Random(4000);
+    c.evict = Evict::Generous;
+    c.check_usage = true;
+    v.push(c);
+    // behavioural form: limit just above the largest live set the alphabet can build at this depth
+    let d = if tier == Tier::Quick { 4 } else { 5 };
+    let mut c = base("C15/behavioural-L=130", "C15", a, d, tier);
+    c.sut.policy = Policy::Random(130);
+    c.evict = Evict::Generous;
+    c.check_usage = true;
+    v.push(c);
+    v
+}
+
 pub fn seq_cfgs(prop: &str, tier: Tier) -> Vec<SeqCfg> {
     match prop {
         "C01" => c01(tier),
@@ -313,6 +392,8 @@ pub fn seq_cfgs(prop: &str, tier: Tier) -> Vec<SeqCfg> {
         "C06" => c06(tier),
         "C07" => c07(tier),
         "C08" => c08(tier),
+        "C14" => c14(tier),
+        "C15" => c15(tier),
         _ => vec![],
     }
 }
